@@ -334,6 +334,13 @@ class AI:
             return [(t["t"], mk())] if "t" in t else []
         if k == "return":
             v = info.get(0)
+            if v and v[0] == "m":
+                # the function returns a byte predicate of cur unevaluated: split the outcome
+                if cur & v[1]:
+                    outcomes.add((None, 1, None, cur & v[1], eof, self._clamp(p), tok))
+                if cur & ~v[1] & ALL:
+                    outcomes.add((None, 0, None, cur & ~v[1] & ALL, eof, self._clamp(p), tok))
+                return []
             rtag = v[1] if v and v[0] == "t" else None
             rint = v[1] if v and v[0] == "i" else None
             rshape = v[1] if v and v[0] == "k" else None
@@ -774,3 +781,19 @@ def measure_check(ai, body, scc, header):
                 if not ok:
                     bad.append((start, st2, pred))
     return bad
+
+
+def byte_class(ai, fid):
+    """exact set of byte values of Scanner.cur for which the predicate function returns true / false / unknown"""
+    outs = ai.summary(fid, ALL, 0, 2, ())
+    ai.solve()
+    outs = ai.summary(fid, ALL, 0, 2, ())
+    t = f = u = 0
+    for rtag, rint, rshape, c, e, p, tk in outs:
+        if rint == 1:
+            t |= c
+        elif rint == 0:
+            f |= c
+        else:
+            u |= c
+    return t, f, u
